@@ -3,7 +3,8 @@ LEVEL = "proof"
 LEAN_MODULES = ["CifModel.Props.C11"]
 REQUIRED = ["CifModel.C11_table", "CifModel.C11_tree_link", "CifModel.C11_table_tree", "CifModel.C11_version", "CifModel.C11_wrong_encoding",
             "CifModel.C11_bom_only_first", "CifModel.C11_same_text_any_signature",
-            "CifModel.C11_cex_named_default_ignored", "CifModel.C11_cex_magic_not_token"]
+            "CifModel.C11_terminators", "CifModel.C11_cex_named_default_ignored", "CifModel.C11_cex_magic_not_token",
+            "CifModel.C11_cex_terminator_forgotten"]
 GEN = ["ParseConsts"]
 FAMILIES = ["dialect"]
 EXHAUSTIVE = True
@@ -22,7 +23,8 @@ TRUSTED_BASE = [
     "harness/x_dialect.c (+ cifio.h canonical dump), tools/gen/dialect.py",
 ]
 ASSUMPTIONS = [
-    "a version comment is the first token of the text, exactly ten characters, followed by whitespace or the end of the input "
+    "a version comment is the first token of the text, exactly ten characters, followed by CIF whitespace (LF, CR - also as the "
+    "first half of CR LF -, blank, tab) or the end of the input; each of these terminators is a dimension of the exhaustive table "
     "(`consistent` in the theorem; magic-like comments such as #\\#CIF_2.01 are covered by the correspondence run only, and for "
     "1 <= prefer_cif2 <= 19 the oracle accepts either version for them because the documentation does not say whether they are "
     "'a comment for another version' or 'no version comment')",
@@ -36,7 +38,7 @@ PARTIAL = []
 LEVEL_TEXT = ("Proof: C11_table covers every prefer_cif2 : Int (reduced to its four documented ranges by omega), every consistent "
               "input header, both values of force_default_encoding and every default-encoding situation; C11_version, "
               "C11_wrong_encoding, C11_bom_only_first, C11_same_text_any_signature cover the remaining clauses. The tie to the "
-              "code is exhaustive over the 7 200-cell table of the property plus boundary inputs, through the real cif_parse.")
+              "code is exhaustive over the 30 000-cell table of the property plus boundary inputs, through the real cif_parse.")
 LEVEL_NOTE = ("Trusted: Lean kernel; the hand-written cascade model (exhaustively corresponded on the property's table); "
               "translate_consts.py; the two independent transcriptions of the documentation; ICU is observed, not modelled. "
               "C11_table is stated for either variant of the cascade's last branch; C11_tree_link (re-decided against the sources "
